@@ -17,7 +17,12 @@ FIELD = {"open": 1, "high": 2, "low": 3, "close": 4, "volume": 5}
 OSC = {"RSI", "STOCH", "TSI", "AROON", "ADX"}
 
 
+DERIVED = {"high_low": lambda b: abs(b[2] - b[3]), "realbody": lambda b: abs(b[1] - b[4])}  # candle geometry readable as an input series
+
+
 def series(base, name):
+    if name in DERIVED:
+        return [float(DERIVED[name](b)) for b in base]
     return [float(b[FIELD[name]]) if name != "volume" else b[5] for b in base]
 
 
@@ -132,6 +137,8 @@ def level_of(cfg, base, xs=None):
         vals = [abs(x) for x in xs if isinstance(x, (int, float))]
     elif cfg["kw"].get("input_value") == "volume" and cfg["cls"] in configs.HAS_INPUT:
         vals = [abs(b[5]) for b in base]
+    elif cfg["kw"].get("input_value") in DERIVED and cfg["cls"] in configs.HAS_INPUT:
+        vals = [abs(x) for x in series(base, cfg["kw"]["input_value"])]
     else:
         vals = [abs(b[4]) for b in base]
     return max(1e-9, sum(vals) / max(1, len(vals)))
@@ -300,6 +307,8 @@ def gen_price_case(rng, tier, classes):
         cfg["kw"]["round_value"] = rng.choice([2, 3])
     else:
         cfg["kw"].pop("round_value", None)
+    if cls in ("SMA", "EMA", "RMA", "WMA", "HMA", "StandardDeviation", "MACD", "TSI") and rng.random() < 0.05:
+        cfg["kw"]["input_value"] = rng.choice(list(DERIVED))  # a candle's geometry (its range, its body) is a legitimate input series
     if rng.random() < 0.04:
         cfg["kw"]["name_suffix"] = rng.choice(["1.5", "v2.0", "a"])  # user-chosen name parts (dots included) must not change what is computed
     lb = configs.lookback(cfg)
@@ -320,7 +329,7 @@ def gen_price_case(rng, tier, classes):
         rows = streams.make_rows(rng, n, fam, 60)
         bucket = None
     mode = "batch" if rng.random() < 0.7 else "incremental"
-    sch = schedules.rand_schedule(rng, n, bucket=bucket) if mode == "incremental" else None
+    sch = schedules.rand_schedule(rng, n, bucket=bucket, encs=("candle", "candle", "dict", "list", "mixed")) if mode == "incremental" else None
     return {"kind": "price", "cfg": cfg, "rows": rows, "family": fam, "mode": mode, "schedule": sch}
 
 
